@@ -10,7 +10,7 @@ import (
 	v "github.com/elnosh/gonuts/verifrt"
 )
 
-const vhH2CIterations = 4 // stated unwinding bound: messages whose point is found within 4 counter values
+const vhH2CIterations = 40 // stated unwinding bound: messages whose point is found within 40 counter values
 
 // hash_to_curve written from NUT-00: Y = PublicKey('02' || SHA256(SHA256(DOMAIN || msg) || counter_le32)), first counter that works
 func vhRefHashToCurve(msg []byte) *secp256k1.PublicKey {
